@@ -17,20 +17,21 @@ import (
 // it injects short writes and write errors according to the request's plan and
 // records every call.
 type Spy struct {
-	req       *Req
-	H         http.Header
-	Sent      http.Header // snapshot of H when the status went out
-	Code      int         // first status accepted (0: none yet)
-	Implicit  bool        // the status was implied by a body write / flush
-	Body      []byte
-	NStatus   int // number of statuses accepted (superfluous ones included)
-	NWrite    int
-	NFlush    int
-	NHijack   int
-	CountOnly bool // do not store body bytes, only count them (bulk histories)
-	Count     int64
-	plan      []WFault
-	refuseTo  *Req
+	req         *Req
+	H           http.Header
+	Sent        http.Header // snapshot of H when the status went out
+	Code        int         // first status accepted (0: none yet)
+	Implicit    bool        // the status was implied by a body write / flush
+	Body        []byte
+	NStatus     int // number of statuses accepted (superfluous ones included)
+	NWrite      int
+	NFlush      int
+	NHijack     int
+	HijackFails bool // the underlying connection cannot be taken over: Hijack returns an error
+	CountOnly   bool // do not store body bytes, only count them (bulk histories)
+	Count       int64
+	plan        []WFault
+	refuseTo    *Req
 }
 
 // ErrInjected is the error returned by injected write faults.
@@ -166,6 +167,10 @@ func (s *Spy) readFrom(r io.Reader) (int64, error) {
 func (s *Spy) hijack() (net.Conn, *bufio.ReadWriter, error) {
 	sched.Yield(SiteSpyFlush)
 	s.NHijack++
+	if s.HijackFails {
+		s.req.ev(EvNote, 0, 0, "underlying.Hijack:refused")
+		return nil, nil, ErrInjected
+	}
 	s.req.ev(EvNote, 0, 0, "underlying.Hijack")
 	return nil, nil, nil
 }
